@@ -47,6 +47,13 @@ CLAIMED = {
         design_ref="DESIGN.md §3.4",
         note="sample_gate_by_gate needs networkx, which is not installed here, and did not run; sample_chaotic only with every qubit as marginal qubit (otherwise it is approximate by design); PEPS/PEPO simple-update circuits truncate by construction and are out; a suspended sampler is accepted when its sample is supported on any state held since it first ran.",
     ),
+    "C18": dict(
+        category="exploration",
+        technique="deterministic simulation: seeded history search over (method x state kind x Hamiltonian representation x t0 x callbacks) and update-time sequences, at_times generators advanced / abandoned, cancellation through int_stop at a recorded accepted integrator step; expm / own RK4 propagator reference and conservation invariants at every observed state",
+        text="Every combination of method (solve, integrate with both steppers, expm), ket / pure / mixed density operator, dense / sparse / pre-diagonalised / LinearOperator / callable H(t), non-zero t0 and 2- or 3-argument / dict callbacks is constructed: it must either be refused or satisfy, at every state observed (pt after each update, each yielded state, every (t, pt) a callback or int_stop saw, the state at evo.t after a cancellation), pt = U p0 (U^dag) within tolerance plus norm/trace, purity and energy conservation, and evo.t = requested time. Update sequences are non-uniform, repeated, tiny, and non-monotonic for solve. Sampling: evidence, not proof.",
+        design_ref="DESIGN.md §3.7",
+        note="scipy.linalg.expm and an own fixed-step RK4 propagator are the reference; integrate judged at 2e-6*max(1,||H|| |t-t0|) (scipy default rtol 1e-6); the scipy steppers run for real; quimb.Lazy Hamiltonians are outside the listed representations.",
+    ),
 }
 
 NOT_APPLICABLE = {
